@@ -40,10 +40,14 @@ func glob(dir string, g string) ([]string, error) {
 	for _, f := range fs {
 		info, err := os.Stat(f)
 		if err != nil {
-			// One match that cannot be read (e.g. a dangling symlink) must
-			// not hide the other files the pattern matches
+			// One match that cannot be read (a dangling symlink: the entry
+			// exists, its target does not) must not hide the other files the
+			// pattern matches. A name that does not exist at all (e.g. one
+			// alternative of a brace expression) is still an error
 			if len(fs) > 1 && os.IsNotExist(err) {
-				continue
+				if _, lerr := os.Lstat(f); lerr == nil {
+					continue
+				}
 			}
 			return nil, err
 		}
